@@ -123,6 +123,24 @@ example : GoodPeriod good7 := fun c => by
 /-- the hypotheses matter: without an honest supermajority (`T = 4`: all four nodes needed, one is Byzantine) the same run commits nothing -/
 example : commits { P4 with T := 4 } (syncFresh { P4 with T := 4 } good7 0 []) = [] := by decide
 
+/-! ### the delivery assumption as a rule of the code
+
+`deliver p` lets a node that is already in period `p` cache every next threshold of `p - 1`.  In the code that information
+reaches such a node as a re-broadcast bundle (`partitionPolicy`), which must pass `bundleFresh`.  The model of `bundleFresh`
+(`Spec.AgreementSync.bundleFresh`, tied to the real function on a grid of (round, period, LastConcluding, step) tuples) accepts it
+whatever its step and whatever the step at which the node left `p - 1`: -/
+
+/-- a bundle of the node's round and of a period `≥ p - 1` is accepted, for every step -/
+theorem bundle_of_concluded_period_accepted (r p q s : Nat) (h : p ≤ q + 1) : bundleFresh r p r q s = true := by
+  unfold bundleFresh
+  have : ¬ q < p - 1 := by omega
+  simp [this]
+
+/-- cert bundles of the round are accepted from every period -/
+theorem cert_bundle_accepted (r p q : Nat) : bundleFresh r p r q 2 = true := by simp [bundleFresh]
+
+example : bundleFresh 5 1 5 0 4 = true ∧ bundleFresh 5 3 5 1 3 = false ∧ bundleFresh 5 3 6 3 3 = false := by decide
+
 /-! ### many periods in lock-step (PROVED)
 
 The synchronous step function preserves the local rules (`WF`), so the two lemmas compose over any number of periods:
